@@ -80,4 +80,18 @@ typedef uint64_t elem_t;      /* opaque element token for templates that only mo
 		__CPROVER_ensures(__CPROVER_forall { size_t i_; __CPROVER_forall { size_t j_; (i_ < j_ && j_ < v->size) ==> v->data[i_] <= v->data[j_] } });
 #endif
 
+/* resize(n, value) / vector(n, value) */
+#ifdef SHIM_IMPL
+#define VEC_SHIMS_FILL(V, T)                                                                                     \
+	static inline void V##_resize_fill(V *v, size_t n, T val) { for (size_t k_ = v->size; k_ < n; k_++) v->data[k_] = val; v->size = n; }
+#else
+#define VEC_SHIMS_FILL(V, T)                                                                                     \
+	void V##_resize_fill(V *v, size_t n, T val)                                                                  \
+		__CPROVER_requires(n <= CAP)                                                                             \
+		__CPROVER_assigns(v->size, __CPROVER_object_whole(v->data))                                              \
+		__CPROVER_ensures(v->size == n)                                                                          \
+		__CPROVER_ensures((gh_f_##V < n && gh_f_##V >= __CPROVER_old(v->size)) ==> v->data[gh_f_##V < CAP ? gh_f_##V : 0] == val) \
+		__CPROVER_ensures((gh_f_##V < n && gh_f_##V < __CPROVER_old(v->size)) ==> v->data[gh_f_##V < CAP ? gh_f_##V : 0] == __CPROVER_old(v->data[gh_f_##V < CAP ? gh_f_##V : 0]));
+#endif
+
 #endif
